@@ -62,13 +62,13 @@ def run(tier):
     ck.log("rule programs: %d %s, %d problems" % (len(cases), dict(stats), bad))
     # generated programs: every call of a view/value/slice-pointer/pointer callee, caller state printed, vs the interpreter
     n = 150 if tier == "quick" else 20000
-    ne, estats, dout, srcs = execstream.run(ck, n, ck.seed + 8, level=2, label="exec")
+    ne, estats, dout, srcs = execstream.run(ck, n, ck.seed + 8, level=3, label="exec")
     ck.log("generated programs with calls through every parameter kind: %d runs %s" % (ne, dict(estats)))
     if not proof_ok:
         ck.violation("tie-broken:proof", "Props/C08.v no longer checks", getattr(ck, "proof_output", "")[-2000:])
     ck.coverage.update(
         evaluations=len(cases) + ne, distinct_nontrivial=len(cases) + dout,
-        rule="rule programs: for 4 element types, single-fault programs that try to mutate through a by-value parameter, an array view, a struct view, a constant, copy an array / struct, pass a pointer argument without `&`, or take the address of something immutable (must be rejected, with E530 / E531 / E533 / E513 where the property names the code), and their valid counterparts (effect on the caller's variables printed); generated programs (level 2) in which callees read views, write through slice pointers and pointers, pointer variables are retargeted, and the caller prints its variables after every call, compared with the interpreter; distinct = rule programs + distinct outputs",
+        rule="rule programs: for 4 element types, single-fault programs that try to mutate through a by-value parameter, an array view, a struct view, a constant, copy an array / struct, pass a pointer argument without `&`, or take the address of something immutable (must be rejected, with E530 / E531 / E533 / E513 where the property names the code), and their valid counterparts (effect on the caller's variables printed); generated programs (level 3) in which callees read views of arrays and structures, write through slice pointers, pointers and pointers to structures, pointer variables are retargeted, and the caller prints its variables after every call, compared with the interpreter; distinct = rule programs + distinct outputs",
         stats=dict(stats), problems=bad, exec_stats=dict(estats),
         samples=[dict(case=cases[0][0], source=cases[0][1], result=impl.get(cases[0][0], ["?"])[0])])
     return ck.finish()
